@@ -19,13 +19,16 @@ map <idx> none | <endoff:meth,...>          ->  > map <idx> none | <endoff:meth,
 op <caps> <as> <addr> <cbstatus>            ->  > op <status> calls=<n> [<as> <addr>]
 conv <target_as> <as> <addr>                ->  > conv <status> <as> <addr>
 chains                                      ->  > chains ...   (the model's chain tables; driver only)
-newctx                                      fresh translation context (cold read cache); so do mem/ovr/bad/null/clr/newsys
+newctx                                      ->  > newctx lost=<n>   fresh translation context (cold read cache); so do
+                                            mem/ovr/bad/null/clr/newsys (silently).  <n> = buffers the get-page callback delivered to
+                                            the contexts destroyed since the last `newctx` for which put_page was never called
+                                            (model: 0, `read_gives_back` + cleanup_cache)
 reent off | <as> <pfn:addr,...>             re-entrant get-page callback: before it delivers page <pfn> (of any address space)
                                             it reads the 64-bit object at <as>:<addr> through the same context
 reentsys <0|1>                              the callback's own read may use the translation system (the object's address space need
                                             not be directly readable); such reads are outside the cache model (`rd ?`)
-rd <as> <addr>                              ->  > rd <status> [<value>] gp=<callbacks started> nest=<deepest nesting> mru=<slot order>
-                                                  slots=<as:addr:size:ptr;...>     one 64-bit read through the context
+rd <as> <addr>                              ->  > rd <status> [<value>] gp=<callbacks started> nest=<deepest nesting> got=<buffers delivered>
+                                                  put=<put_page calls> mru=<slot order> slots=<as:addr:size:ptr:filling;...>     one 64-bit read through the context
                                                   (model: Kdf.Model.RCache = get_cache_buf of ctx.c)
 ```
 While a `reent` table is in force `op`/`conv` are outside the model of `addrxlat_op` (its memory is a pure function): the
@@ -131,7 +134,7 @@ def armOf (w : String) : CustomArm :=
   | _ => .fail .nometh
 
 def showSlots (c : Kdf.Model.RCache.RCache) : String :=
-  ";".intercalate (c.slots.map fun sl => s!"{showAs sl.addr.as}:{sl.addr.addr}:{sl.size}:{if sl.ptr then 1 else 0}")
+  ";".intercalate (c.slots.map fun sl => s!"{showAs sl.addr.as}:{sl.addr.addr}:{sl.size}:{if sl.ptr then 1 else 0}:{if sl.filling then 1 else 0}")
 
 def cfgOf (s : St) : Cfg := ⟨if s.nosys then none else some s.sys, s.rcaps, pmOf s.mem⟩
 
@@ -149,8 +152,7 @@ def showChains : String :=
                    one "machphys2direct" .machphys2direct,
                    "expect=" ++ ",".intercalate ((List.range 5).map fun i => toString (mapExpectAs i)),
                    s!"max_inflight={MAX_INFLIGHT}",
-                   s!"read_cache_slots={Kdf.Model.RCache.READ_CACHE_SLOTS}",
-                   s!"max_read_nesting={Kdf.Model.RCache.MAX_READ_NESTING}"]
+                   s!"read_cache_slots={Kdf.Model.RCache.READ_CACHE_SLOTS}", "filling_mark=1"]
 
 /-- `op` / `conv` through the model of `addrxlat_op` -/
 def opLine (s : St) (ws : List String) : String :=
@@ -187,7 +189,7 @@ partial def loop (h : IO.FS.Stream) (s : St) : IO Unit := do
   | ["clr"] => loop h { s with cache := some Kdf.Model.RCache.init, reent := [], reentSys := false, mem := { s.mem with ovr := [], bad := [] } }
   | ["newsys"] =>
     loop h { s with cache := some Kdf.Model.RCache.init, sys := ⟨List.replicate 5 none, List.replicate 16 .nometh⟩, nosys := false }
-  | ["newctx"] => loop h { s with cache := some Kdf.Model.RCache.init }
+  | ["newctx"] => IO.println "> newctx lost=0"; loop h { s with cache := some Kdf.Model.RCache.init }
   | ["reent", "off"] => loop h { s with reent := [] }
   | ["reent", as, tbl] =>
     let es := (tbl.splitOn ",").filter (· ≠ "") |>.map fun e =>
@@ -204,14 +206,14 @@ partial def loop (h : IO.FS.Stream) (s : St) : IO Unit := do
     | some c =>
       if !Kdf.Model.RCache.capsHas s.rcaps a.as then
         -- `read64` goes through `internal_op` without a translation system
-        IO.println s!"> rd nometh gp=0 nest=0 mru={",".intercalate (c.order.map toString)} slots={showSlots c}"
+        IO.println s!"> rd nometh gp=0 nest=0 got=0 put=0 mru={",".intercalate (c.order.map toString)} slots={showSlots c}"
         loop h s
       else
         let o := Kdf.Model.RCache.read (cbOf s) c a
         let v := match o.res with
           | .ok _ => (match pmOf s.mem a.as a.addr 8 with | .ok v => s!" {v}" | .error _ => " ?")
           | .error _ => ""
-        IO.println s!"> rd {showStatus o.status}{v} gp={o.calls} nest={o.depth} mru={",".intercalate (o.cache.order.map toString)} slots={showSlots o.cache}"
+        IO.println s!"> rd {showStatus o.status}{v} gp={o.calls} nest={o.depth} got={o.got} put={o.put} mru={",".intercalate (o.cache.order.map toString)} slots={showSlots o.cache}"
         loop h { s with cache := some o.cache }
   | ["meth", slot, "custom", t, mask, hit, miss] =>
     loop h (setMeth s slot (.custom (asOf t) mask.toNat! (armOf hit) (armOf miss)))
